@@ -80,8 +80,9 @@ def decodeIntoLoop (flat : List Nat) : (fuel : Nat) → Dec → List FD → Res 
           if ¬ fd.data.isEmpty ∧ fd.wt ≠ wt then .err else
           if wt = wtVarint ∨ wt = wtFixed32 ∨ wt = wtFixed64 then
             match d1.step (.skip tag wt) with
-            | (d2, .ok (.bytes val), _) =>
-              decodeIntoLoop flat fuel d2 (fds.set i { wt := wt, data := fd.data ++ [val.drop (sizeOfTagKey tag)] })
+            | (d2, .ok (.bytes _), _) =>
+              -- `start := dec.Offset()` after DecodeTag, `data[start:dec.Offset()]` after Skip: the value, whatever the length of the key
+              decodeIntoLoop flat fuel d2 (fds.set i { wt := wt, data := fd.data ++ [(d1.p.drop d1.off).take (d2.off - d1.off)] })
             | (_, .panic, _) => .panic
             | _ => .err
           else if wt = wtLen then
